@@ -1,0 +1,41 @@
+// Verification hooks (cargo feature `verif`). Compiled out by default.
+//
+// A thread-local iteration budget that lets an external harness bound the number of planning
+// iterations (RRT / RRT-Connect / RRT*: loop iterations; PRM: samples drawn while constructing the
+// roadmap) independently of wall-clock time. `None` (the default) means unlimited, i.e. the hook
+// is inert unless it is armed on the calling thread.
+
+use std::cell::Cell;
+
+thread_local! {
+    static BUDGET: Cell<Option<u64>> = const { Cell::new(None) };
+    static TICKS: Cell<u64> = const { Cell::new(0) };
+}
+
+/// Arms (`Some(n)`) or disarms (`None`) the iteration budget of the calling thread and resets the
+/// tick counter.
+pub fn set_budget(budget: Option<u64>) {
+    BUDGET.with(|b| b.set(budget));
+    TICKS.with(|t| t.set(0));
+}
+
+/// Consumes one unit of budget. Returns `false` when the budget is exhausted.
+pub fn take_tick() -> bool {
+    let ok = BUDGET.with(|b| match b.get() {
+        None => true,
+        Some(0) => false,
+        Some(n) => {
+            b.set(Some(n - 1));
+            true
+        }
+    });
+    if ok {
+        TICKS.with(|t| t.set(t.get() + 1));
+    }
+    ok
+}
+
+/// Number of ticks granted since the last `set_budget` call on this thread.
+pub fn ticks_used() -> u64 {
+    TICKS.with(|t| t.get())
+}
